@@ -81,10 +81,12 @@ type Thread struct {
 func (t *Thread) String() string { return fmt.Sprintf("T%d(%s)", t.ID, t.Site) }
 
 // Done reports whether the thread has returned (or panicked).
+//
 //go:norace
 func (t *Thread) Done() bool { return t.done }
 
 // Pending describes the operation the thread is parked on.
+//
 //go:norace
 func (t *Thread) Pending() string {
 	s := opNames[t.kind]
@@ -186,14 +188,14 @@ type Exec struct {
 	HarnessErr   string
 	// MainDone: the body given to Run (thread 0) ran to its end. False when the horizon, a deadlock or a panic
 	// ended the execution first: whatever the body wanted to judge after that point was never judged.
-	MainDone bool
-	sig          [2]uint64
-	devs         int
-	mutexes      []*Mutex
-	rwmutexes    []*RWMutex
-	envSeq       int
-	Quiescences  int
-	Deadlock     string
+	MainDone    bool
+	sig         [2]uint64
+	devs        int
+	mutexes     []*Mutex
+	rwmutexes   []*RWMutex
+	envSeq      int
+	Quiescences int
+	Deadlock    string
 }
 
 // E is the current execution (nil outside Run).
@@ -203,12 +205,16 @@ var epoch = time.Date(2030, 1, 1, 0, 0, 0, 0, time.UTC)
 
 //go:norace
 func (e *Exec) Clock() time.Duration { return e.now }
+
 //go:norace
-func (e *Exec) Threads() []*Thread   { return e.threads }
+func (e *Exec) Threads() []*Thread { return e.threads }
+
 //go:norace
-func (e *Exec) Deviations() int      { return e.devs }
+func (e *Exec) Deviations() int { return e.devs }
+
 //go:norace
-func (e *Exec) StateSig() [2]uint64  { return e.sig }
+func (e *Exec) StateSig() [2]uint64 { return e.sig }
+
 //go:norace
 func Self() *Thread {
 	if E == nil {
@@ -221,6 +227,7 @@ func Self() *Thread {
 func active() bool { return E != nil && !E.tearing }
 
 // Fail records a harness-detected property failure and stops the execution at the next scheduling point.
+//
 //go:norace
 func (e *Exec) Fail(format string, a ...any) {
 	if e.Failure == "" {
@@ -243,6 +250,7 @@ func mix(a, b uint64) uint64 {
 func mix2(h uint64) [2]uint64 { return [2]uint64{mix(h, 0x1234567), mix(h, 0x89abcdef0)} }
 
 // touch records that the running thread performed one operation on the given objects.
+//
 //go:norace
 func (e *Exec) touch(objs ...*hbObj) {
 	t := e.cur
@@ -271,6 +279,7 @@ func (e *Exec) touch(objs ...*hbObj) {
 // ---------------------------------------------------------------- threads
 
 // Go starts a modelled thread.
+//
 //go:norace
 func Go(site string, f func()) {
 	if Native {
@@ -297,6 +306,7 @@ func Go(site string, f func()) {
 
 // GoQuiet starts a modelled thread without making the creation a scheduling point of the parent
 // (harness set-up: the start order of the spawned threads is explored anyway).
+//
 //go:norace
 func GoQuiet(site string, f func()) {
 	if Native {
@@ -369,6 +379,7 @@ var tearToken int
 
 // unwind is what a parked thread does when the execution is being torn down: first publish its past
 // (phase 1), then, when woken again, run its deferred calls alone (phase 2).
+//
 //go:norace
 func unwind(t *Thread) {
 	raceReleaseObj(unsafe.Pointer(&tearToken))
@@ -402,6 +413,7 @@ func park(t *Thread) {
 }
 
 // caller names the first frame outside this package (tracing only).
+//
 //go:norace
 func caller() string {
 	pc := make([]uintptr, 12)
@@ -423,6 +435,7 @@ func caller() string {
 }
 
 // Point is a bare scheduling point.
+//
 //go:norace
 func Point() {
 	if Native || !active() {
@@ -434,6 +447,7 @@ func Point() {
 }
 
 // PointL is a scheduling point with a label shown in traces.
+//
 //go:norace
 func PointL(label string) {
 	if Native || !active() {
@@ -447,6 +461,7 @@ func PointL(label string) {
 }
 
 // Yield is what a polling loop must call: a scheduling point.
+//
 //go:norace
 func Yield() { Point() }
 
@@ -459,6 +474,7 @@ type Var struct {
 
 // Note marks an access of the running thread to v (call it before reading or writing harness state
 // that other threads also touch).
+//
 //go:norace
 func (v *Var) Note() {
 	if Native {
@@ -472,6 +488,7 @@ func (v *Var) Note() {
 }
 
 // Do runs f as one atomic access to v.
+//
 //go:norace
 func (v *Var) Do(f func()) {
 	if Native {
@@ -493,6 +510,7 @@ var awaitToken int
 
 // Await blocks the calling thread until cond holds. cond must be a pure function of state that only
 // changes at scheduling points.
+//
 //go:norace
 func Await(cond func() bool) {
 	if Native {
@@ -514,6 +532,7 @@ func Await(cond func() bool) {
 }
 
 // Choose is an environment answer in [0,n); 0 is the default.
+//
 //go:norace
 func Choose(n int, label string) int {
 	if Native || !active() || n <= 1 {
@@ -633,6 +652,7 @@ func (m *Mutex) TryLock() bool {
 }
 
 // Held reports whether the mutex is held and by whom (harness oracles).
+//
 //go:norace
 func (m *Mutex) Held() (bool, *Thread) {
 	if m.hb.ex != E {
@@ -821,11 +841,13 @@ func (m *RWMutex) RLocker() sync.Locker { return (*rlocker)(m) }
 type rlocker RWMutex
 
 //go:norace
-func (r *rlocker) Lock()   { (*RWMutex)(r).RLock() }
+func (r *rlocker) Lock() { (*RWMutex)(r).RLock() }
+
 //go:norace
 func (r *rlocker) Unlock() { (*RWMutex)(r).RUnlock() }
 
 // State reports (writer held or announced, readers) for harness oracles.
+//
 //go:norace
 func (m *RWMutex) State() (bool, int) {
 	if m.hb.ex != E {
@@ -1038,6 +1060,7 @@ type Case struct {
 
 //go:norace
 func Recv(ch any) Case { return Case{ch: ch} }
+
 //go:norace
 func Send(ch any) Case { return Case{ch: ch, send: true} }
 
@@ -1071,6 +1094,7 @@ func hasLive(q []*waiter) bool {
 }
 
 // Close closes a channel.
+//
 //go:norace
 func Close(ch any) {
 	if Native {
@@ -1109,6 +1133,7 @@ func Close(ch any) {
 
 // Select models a select statement over signal-only channels; it returns the index (among the
 // cases passed, in order) of the clause that proceeded, or -1 for default.
+//
 //go:norace
 func Select(hasDefault bool, cases ...Case) int {
 	if Native {
@@ -1228,10 +1253,12 @@ func Select(hasDefault bool, cases ...Case) int {
 }
 
 // SendStmt models `ch <- v` for signal-only channels.
+//
 //go:norace
 func SendStmt(ch any) { Select(false, Send(ch)) }
 
 // RecvStmt models `<-ch`; ok is false when the channel is closed and drained.
+//
 //go:norace
 func RecvStmt(ch any) (ok bool) {
 	if Native {
@@ -1258,6 +1285,7 @@ func Now() time.Time {
 
 //go:norace
 func Since(t time.Time) time.Duration { return Now().Sub(t) }
+
 //go:norace
 func Until(t time.Time) time.Duration { return t.Sub(Now()) }
 
@@ -1278,6 +1306,7 @@ func (e *Exec) newTimer(d time.Duration, ch any, fn func()) *chState {
 }
 
 // After is time.After on the virtual clock.
+//
 //go:norace
 func After(d time.Duration) <-chan time.Time {
 	if Native {
@@ -1293,6 +1322,7 @@ func After(d time.Duration) <-chan time.Time {
 }
 
 // Sleep is time.Sleep on the virtual clock.
+//
 //go:norace
 func Sleep(d time.Duration) {
 	if Native {
@@ -1330,6 +1360,7 @@ func AfterFunc(d time.Duration, f func()) *Timer {
 }
 
 // NewTimer is time.NewTimer on the virtual clock.
+//
 //go:norace
 func NewTimer(d time.Duration) *Timer {
 	if Native {
@@ -1346,6 +1377,7 @@ func NewTimer(d time.Duration) *Timer {
 }
 
 // Reset re-arms the timer (time.Timer.Reset with Go 1.23 semantics: a stale value is discarded).
+//
 //go:norace
 func (t *Timer) Reset(d time.Duration) bool {
 	if t.real != nil {
@@ -1437,6 +1469,7 @@ type divergence struct{ msg string }
 // its default and is not offered to the explorer: a harness uses this for its set-up phase (e.g. the
 // connection handshake), so that the deviation budget is spent on the phase under study. The state
 // reached is the one the default schedule produces.
+//
 //go:norace
 func SetExploring(on bool) {
 	if Native || E == nil {
@@ -1494,6 +1527,7 @@ func (e *Exec) fullSig() [2]uint64 {
 }
 
 // pendingTimers returns live timers sorted by (deadline, creation).
+//
 //go:norace
 func (e *Exec) pendingTimers() []*chState {
 	live := e.timers[:0]
@@ -1534,6 +1568,7 @@ func (e *Exec) fire(s *chState) {
 
 // advance moves the clock to the earliest deadline and fires what is due; equal deadlines fire in
 // creation order (their waiters become enabled together, so the wake-up order is still a thread choice).
+//
 //go:norace
 func (e *Exec) advance() bool {
 	ts := e.pendingTimers()
@@ -1601,10 +1636,12 @@ var runStartHooks []func()
 // OnRunStart registers a function that runs at the start of every execution, before thread 0: shims
 // use it to reset package-level state of the code under test (sequence counters), so that every
 // execution starts from the same state.
+//
 //go:norace
 func OnRunStart(f func()) { runStartHooks = append(runStartHooks, f) }
 
 // Run executes body as thread 0 under the scheduler and returns when the execution is over.
+//
 //go:norace
 func Run(opt Options, body func(e *Exec)) *Exec {
 	if Native {
@@ -1757,6 +1794,7 @@ func (e *Exec) waitExit(t *Thread) { e.waitChan(t, t.exited) }
 // findDeadlock reports threads that can never continue: waiting for a lock whose holder has exited
 // or (transitively) waits for them; and, when no timer is pending at all, every thread parked in a
 // lock or WaitGroup operation.
+//
 //go:norace
 func (e *Exec) findDeadlock() string {
 	var stuck []string
@@ -1801,6 +1839,7 @@ func (e *Exec) findDeadlock() string {
 }
 
 // HeldLocks lists modelled mutexes that are held right now (call from a final check).
+//
 //go:norace
 func (e *Exec) HeldLocks() []string {
 	var out []string
@@ -1818,6 +1857,7 @@ func (e *Exec) HeldLocks() []string {
 }
 
 // Picks converts a recorded trace into a replayable prefix.
+//
 //go:norace
 func Picks(tr []Choice) []Pick {
 	p := make([]Pick, len(tr))
@@ -1831,6 +1871,7 @@ func Picks(tr []Choice) []Pick {
 
 // SortedKeys returns the keys of m in sorted order (strings and integers only; the instrumenter
 // rejects other key types).
+//
 //go:norace
 func SortedKeys[M ~map[K]V, K comparable, V any](m M) []K {
 	keys := make([]K, 0, len(m))
@@ -1859,6 +1900,7 @@ func lessAny(a, b any) bool {
 var EnvFloat64Script func() float64
 
 // EnvFloat64 replaces math/rand.Float64: a scripted answer, else a per-execution deterministic sequence.
+//
 //go:norace
 func EnvFloat64() float64 {
 	if EnvFloat64Script != nil {
@@ -1875,6 +1917,7 @@ func EnvFloat64() float64 {
 var EnvRandScript func(b []byte)
 
 // EnvRandRead replaces crypto/rand.Read: scripted, else a per-execution deterministic byte stream.
+//
 //go:norace
 func EnvRandRead(b []byte) (int, error) {
 	if EnvRandScript != nil {
@@ -1891,7 +1934,6 @@ func EnvRandRead(b []byte) (int, error) {
 	}
 	return len(b), nil
 }
-
 
 // chanTable maps channel addresses to their modelled state. It is a hand-written open-addressing
 // table rather than a Go map because the runtime's map functions are race-instrumented even when
@@ -1941,7 +1983,6 @@ func (t *chanTable) put(k uintptr, v *chState) {
 	}
 	t.keys[i], t.vals[i] = k, v
 }
-
 
 //go:norace
 func holdersOf(t *Thread) []*Thread {
